@@ -4,32 +4,31 @@
 
   Everything here is evaluated (kernel `decide`, no `native_decide`) on the REGENERATED may-write table
   `Algobra.Gen.effects` (/verif/extract/effects.go; `writes` = (parameter index, last path component),
-  receiver = index 0, closed under a NAME-based call graph, call results assumed fresh). A value-returning
-  method that starts writing through a parameter, or an in-place method that starts writing through an
-  argument, changes the table and breaks these proofs. The dynamic half (histories, aliasing `recv = arg`,
-  freshness of results) is the object-level `step` model and the differential harness, not this file.
+  receiver = index 0, closed under a TYPE-resolved call graph: go/types, interface calls go to the
+  implementers in the repository). A value-returning method that starts writing through a parameter, or an
+  in-place method that starts writing through an argument, changes the table and breaks these proofs. The
+  dynamic half (histories, aliasing `recv = arg`, freshness of results) is the object-level `step` model and
+  the differential harness, not this file. The assumptions of the extractor (header of effects.go: call
+  results are fresh, composite literals are fresh objects whose fields initialised from a parameter keep
+  referring to it, functions outside the repository write nothing but copy/delete/sort) are part of the
+  trusted base.
 
   TRUTH OF THE CURRENT TABLE (stated exactly below):
    * in-place operations: NO exception — every may-write through a non-receiver parameter is `err`
-     (`inplace_ops_write_receiver_or_err`);
-   * value-returning operations: 161 of the 197 have only `err` may-writes (the re-wrap inside `hasErr`,
-     which assigns `x.err` only when `x.err != nil`, i.e. never for error-free operands); 36 have further
-     entries, ALL of which are artefacts of the extractor's approximations, none a write to an operand —
-     established by reading /repo for each row (comments at `valueExceptionRows`). Root causes:
-       (R1) constructor alias: `out := &Polynomial{baseRing: r, …}` / `&Ideal{ring: r.ring, …}` /
-            `&QuotientRing{ring: r.ring, …}` is a FRESH object, but a composite literal that mentions a
-            parameter is treated as an alias of it, so the in-place completion of the fresh object
-            (`out.reduce()` ⇒ `Ideal.Reduce(out)`: `*out = *rem`; `SetCoef`; `qr.id = …`) is booked on `r`;
-       (R2) name-based resolution: `a.field.element(1)` in primefield also resolves to
-            `extfield.Field.element`, whose `f.polyRing.PolynomialFromUnsigned` also resolves to
-            `bivariate.QuotientRing.PolynomialFromUnsigned` ⇒ (R1); likewise `Pow`, `Mult`, `Inv`, `Sub`
-            resolve to the methods of all five element/polynomial types;
-       (R3) receiver-root propagation: a callee's may-writes of ITS receiver are booked on the root of
-            the receiver expression, so `f.baseRing.Polynomial(…)` books (R1) on `f`;
-       (R4) `degs`, `vars`: the parser's per-call scratch object `monomialMatch` in `…FromString`.
-     The entry `isGroebner` is, for the bivariate rows, the lazily written Gröbner flag of the ring's
-     ideal reached through `reduce()`; it is guarded and never written for ideals inside quotient rings
-     (Props/C20.lean, part C); for all other rows it is (R2).
+     (`inplace_ops_write_receiver_or_err`), and the receiver entries are fields of the receiver's own type
+     plus the guarded Gröbner flag;
+   * value-returning operations: 191 of the 197 have only `err` may-writes (the re-wrap inside `hasErr`,
+     which assigns `x.err` only when `x.err != nil`, i.e. never for error-free operands). The 6 others:
+       - five bivariate constructors / `Pow` carry exactly `(0, "isGroebner")`: a REAL may-write — the new
+         polynomial is reduced (`reduce()` → `Ideal.Reduce` → `IsGroebner()`), and `IsGroebner` caches its
+         answer in the flag of the ring's ideal. The write is guarded (only when the flag is 0) and never
+         happens for ideals inside quotient rings (flag 1: Props/C20.lean, part C);
+       - `bivariate.QuotientRing.Quotient`: the parameter NAME `id` is re-bound to a fresh object
+         (`id = id.GroebnerBasis()` / `id = id.Copy()`) before `id.ReduceBasis()` and `g.EmbedIn(qr, false)`
+         work on it; the extractor ignores re-binding of a parameter name (assumption A4), so the writes to
+         the fresh ideal are booked on parameter 1. The argument ideal itself is only read.
+     The artefacts of the former name-based extractor (36 rows: `coefs`, `val`, `*`, `degs`, `vars`, … on
+     constructors, `Pow`, `Inv`, `Eval`) are gone.
 -/
 import Algobra.Proofs.Effects
 
@@ -101,32 +100,32 @@ def nonErrWrites (t : List Fn) (p : Fn → Bool) : List (String × List (Nat × 
 
 /-- the complete may-write sets of the 36 in-place operations (all are methods: index 0 = receiver).
     Non-receiver entries are `err` only. Receiver entries beyond the obvious (`val`, `coefs`, `err`):
-    `field` — `Prod` re-homes its receiver (`a.field = bb.field`); `*` — `*f = *h` in the polynomial
-    `Mult`; `isGroebner` — for `bivariate.Polynomial.Mult/SetScale` the guarded flag of the ring's ideal
-    via `reduce()`, elsewhere name-based resolution of `Mult`/`Prod` to the polynomial methods. -/
+    `field` — `Prod` re-homes its receiver (`a.field = bb.field`; reached from `Mult`, `SetScale`);
+    `*` — `*f = *h` in the polynomial `Mult`; `isGroebner` — for `bivariate.Polynomial.Mult` the guarded
+    flag of the ring's ideal via `reduce()` (a real may-write through the receiver, see C20 part C). -/
 def inplaceRows : List (String × List (Nat × String)) := [
   ("binfield.Element.Add", [(0, "err"), (0, "val"), (1, "err")]),
-  ("binfield.Element.Mult", [(0, "*"), (0, "coefs"), (0, "err"), (0, "field"), (0, "isGroebner"), (0, "val"), (1, "err")]),
+  ("binfield.Element.Mult", [(0, "err"), (0, "field"), (0, "val"), (1, "err")]),
   ("binfield.Element.Prod", [(0, "err"), (0, "field"), (0, "val"), (1, "err"), (2, "err")]),
   ("binfield.Element.SetNeg", []),
   ("binfield.Element.SetUnsigned", [(0, "val")]),
-  ("binfield.Element.Sub", [(0, "coefs"), (0, "err"), (0, "val"), (1, "err")]),
+  ("binfield.Element.Sub", [(0, "err"), (0, "val"), (1, "err")]),
   ("bivariate.Polynomial.Add", [(0, "coefs"), (0, "err"), (0, "val"), (1, "err")]),
   ("bivariate.Polynomial.DecrementCoef", [(0, "coefs"), (0, "err"), (0, "val"), (2, "err")]),
   ("bivariate.Polynomial.IncrementCoef", [(0, "coefs"), (0, "err"), (0, "val"), (2, "err")]),
-  ("bivariate.Polynomial.Mult", [(0, "*"), (0, "coefs"), (0, "err"), (0, "isGroebner"), (0, "val"), (1, "err")]),
+  ("bivariate.Polynomial.Mult", [(0, "*"), (0, "err"), (0, "isGroebner"), (1, "err")]),
   ("bivariate.Polynomial.SetCoef", [(0, "coefs")]),
   ("bivariate.Polynomial.SetCoefPtr", [(0, "coefs")]),
-  ("bivariate.Polynomial.SetScale", [(0, "*"), (0, "coefs"), (0, "err"), (0, "field"), (0, "isGroebner"), (0, "val"), (1, "err")]),
+  ("bivariate.Polynomial.SetScale", [(0, "coefs"), (0, "err"), (0, "field"), (0, "val"), (1, "err")]),
   ("bivariate.Polynomial.Sub", [(0, "coefs"), (0, "err"), (0, "val"), (1, "err")]),
   ("extfield.Element.Add", [(0, "coefs"), (0, "err"), (0, "val"), (1, "err")]),
-  ("extfield.Element.Mult", [(0, "*"), (0, "coefs"), (0, "err"), (0, "field"), (0, "isGroebner"), (0, "val"), (1, "err")]),
-  ("extfield.Element.Prod", [(0, "*"), (0, "coefs"), (0, "err"), (0, "field"), (0, "isGroebner"), (0, "val"), (1, "err"), (2, "err")]),
+  ("extfield.Element.Mult", [(0, "coefs"), (0, "err"), (0, "field"), (0, "val"), (1, "err")]),
+  ("extfield.Element.Prod", [(0, "coefs"), (0, "err"), (0, "field"), (0, "val"), (1, "err"), (2, "err")]),
   ("extfield.Element.SetNeg", [(0, "val")]),
-  ("extfield.Element.SetUnsigned", [(0, "*"), (0, "coefs"), (0, "err"), (0, "isGroebner"), (0, "val")]),
+  ("extfield.Element.SetUnsigned", [(0, "val")]),
   ("extfield.Element.Sub", [(0, "coefs"), (0, "err"), (0, "val"), (1, "err")]),
   ("primefield.Element.Add", [(0, "err"), (0, "val"), (1, "err")]),
-  ("primefield.Element.Mult", [(0, "*"), (0, "coefs"), (0, "err"), (0, "field"), (0, "isGroebner"), (0, "val"), (1, "err")]),
+  ("primefield.Element.Mult", [(0, "err"), (0, "field"), (0, "val"), (1, "err")]),
   ("primefield.Element.Prod", [(0, "err"), (0, "field"), (0, "val"), (1, "err"), (2, "err")]),
   ("primefield.Element.SetNeg", [(0, "val")]),
   ("primefield.Element.SetUnsigned", [(0, "val")]),
@@ -134,12 +133,12 @@ def inplaceRows : List (String × List (Nat × String)) := [
   ("univariate.Polynomial.Add", [(0, "coefs"), (0, "err"), (0, "val"), (1, "err")]),
   ("univariate.Polynomial.DecrementCoef", [(0, "coefs"), (0, "err"), (0, "val"), (2, "err")]),
   ("univariate.Polynomial.IncrementCoef", [(0, "coefs"), (0, "err"), (0, "val"), (2, "err")]),
-  ("univariate.Polynomial.Mult", [(0, "*"), (0, "coefs"), (0, "err"), (0, "isGroebner"), (0, "val"), (1, "err")]),
+  ("univariate.Polynomial.Mult", [(0, "*"), (0, "coefs"), (0, "err"), (0, "val"), (1, "err")]),
   ("univariate.Polynomial.SetCoef", [(0, "coefs")]),
   ("univariate.Polynomial.SetCoefPtr", [(0, "coefs")]),
   ("univariate.Polynomial.SetNeg", [(0, "val")]),
-  ("univariate.Polynomial.SetScale", [(0, "*"), (0, "coefs"), (0, "err"), (0, "field"), (0, "isGroebner"), (0, "val"), (1, "err")]),
-  ("univariate.Polynomial.SetZero", [(0, "*"), (0, "coefs"), (0, "err"), (0, "isGroebner"), (0, "val")]),
+  ("univariate.Polynomial.SetScale", [(0, "coefs"), (0, "err"), (0, "field"), (0, "val"), (1, "err")]),
+  ("univariate.Polynomial.SetZero", [(0, "coefs"), (0, "val")]),
   ("univariate.Polynomial.Sub", [(0, "coefs"), (0, "err"), (0, "val"), (1, "err")])]
 
 theorem inplace_ops_may_writes : mayWrites Gen.effects isInplace = inplaceRows := by decide +kernel
@@ -159,80 +158,21 @@ theorem inplace_ops_write_receiver_or_err {f : Fn} (hf : f ∈ Gen.effects) (hi 
 
 /-! ## value-returning operations -/
 
-/-- The value-returning operations with may-writes other than `err`, with exactly those entries.
-    Every row is an artefact (see the header for R1–R4); no row is a write to an operand. -/
+/-- The value-returning operations with may-writes other than `err`, with exactly those entries
+    (explained in the header: the guarded Gröbner flag, and the re-bound parameter name in `Quotient`). -/
 def valueExceptionRows : List (String × List (Nat × String)) := [
-  -- binfield.Field constructors / enumeration: build fresh elements `&Element{field: f, val: …}` from machine
-  -- words and nothing else. (R2): `ElementFromString`, `ElementFromUnsigned`, `Pow`, `Mult`, `reduce` also
-  -- resolve to the extfield / polynomial methods of the same name (whence even `degs`, `vars`, R4, on `Element`).
-  -- A binfield.Field has the fields extDeg, conwayPoly (a uint), varName: none of the entries can denote one.
-  ("binfield.Field.Element", [(0, "*"), (0, "coefs"), (0, "degs"), (0, "isGroebner"), (0, "val"), (0, "vars")]),
-  -- (R1) `a := &Element{field: f, val: val}` mentions both parameters; `a.reduce()` (R2) also resolves to the
-  -- polynomial `reduce`. Parameter 1 is a `uint` passed by value: type-impossible
-  ("binfield.Field.ElementFromBits", [(0, "*"), (0, "coefs"), (0, "isGroebner"), (0, "val"), (1, "*"), (1, "coefs"), (1, "isGroebner"), (1, "val")]),
-  ("binfield.Field.ElementFromString", [(0, "*"), (0, "coefs"), (0, "isGroebner"), (0, "val")]),
-  ("binfield.Field.Elements", [(0, "*"), (0, "coefs"), (0, "isGroebner"), (0, "val")]),
-  ("binfield.Field.MultGenerator", [(0, "*"), (0, "coefs"), (0, "isGroebner"), (0, "val")]),
-  -- `point[i].Pow(deg[i])`: `Pow` is value-returning; (R2) `Pow` resolves to the polynomial `Pow` rows below,
-  -- whose receiver entries are booked on `point` (parameter 1). `f` (parameter 0) has only `err`
-  ("bivariate.Polynomial.Eval", [(1, "*"), (1, "coefs"), (1, "isGroebner"), (1, "val")]),
-  -- `out := f.baseRing.Polynomial({(0,0): 1})`, `g := f.Copy()`, then `out.Mult(g)`, `g.Mult(g)`: only fresh
-  -- objects are multiplied in place; (R3)+(R1) via `f.baseRing.Polynomial`. `isGroebner`: guarded flag
-  ("bivariate.Polynomial.Pow", [(0, "*"), (0, "coefs"), (0, "isGroebner"), (0, "val")]),
-  -- (R1) `id := &Ideal{ring: r.ring, …}`; `id.generators = append(…, g.Copy())` fills the FRESH ideal
-  ("bivariate.QuotientRing.NewIdeal", [(0, "generators")]),
-  -- (R1) `out := &Polynomial{baseRing: r, coefs: m}; out.reduce()` — `*`, `coefs`, `val` are the fresh `out`;
-  -- `isGroebner` is the guarded flag of `r.id` (C20 part C). Same for the three `PolynomialFrom…` (+ R4)
-  ("bivariate.QuotientRing.Polynomial", [(0, "*"), (0, "coefs"), (0, "isGroebner"), (0, "val")]),
-  ("bivariate.QuotientRing.PolynomialFromSigned", [(0, "*"), (0, "coefs"), (0, "isGroebner"), (0, "val")]),
-  ("bivariate.QuotientRing.PolynomialFromString", [(0, "*"), (0, "coefs"), (0, "degs"), (0, "isGroebner"), (0, "val"), (0, "vars")]),
-  ("bivariate.QuotientRing.PolynomialFromUnsigned", [(0, "*"), (0, "coefs"), (0, "isGroebner"), (0, "val")]),
-  -- (R1) `qr := &QuotientRing{ring: r.ring, id: id}` with `id` REBOUND to `id.GroebnerBasis()` (+`ReduceBasis()`
-  -- on that fresh basis) or to `id.Copy()`; `g.EmbedIn(qr, false)` re-homes the generators of that fresh
-  -- ideal. The extractor skips rebinding of a parameter name, so the fresh ideal's writes are booked on
-  -- parameter 1 (`generators`, `isMinimal`, `isReduced`, `baseRing`) and, through `qr`, on parameter 0.
-  -- The argument ideal is only read (flag test, `GroebnerBasis`/`Copy`); reading ring.go confirms
-  ("bivariate.QuotientRing.Quotient", [(0, "*"), (0, "baseRing"), (0, "coefs"), (0, "isGroebner"), (0, "val"), (1, "*"), (1, "baseRing"), (1, "coefs"), (1, "generators"), (1, "isGroebner"), (1, "isMinimal"), (1, "isReduced"), (1, "val")]),
-  -- Euclid on FRESH polynomials: `r0 := conwayPoly.Normalize()` (a copy), `r0.EmbedIn(…)`, `r1 := a.val.Normalize()`,
-  -- `i0 := polyRing.Zero()`, `i1 := polyRing.Polynomial(…)`; `rem.SetScale`, `i0.Sub(quo[0].Mult(i1))` mutate
-  -- those; (R2)/(R3) via `a.field.polyRing.…`, `a.field.logTable.lookup…`
-  ("extfield.Element.Inv", [(0, "*"), (0, "coefs"), (0, "isGroebner"), (0, "val")]),
-  -- extfield.Field constructors / enumeration / random: every one builds `&Element{field: f, val: f.polyRing.
-  -- PolynomialFrom…(…)}`; the univariate constructors create a fresh polynomial and reduce IT modulo the
-  -- Conway polynomial (univariate `Ideal.Reduce` writes only its argument). (R3) books the callee's (R1)/(R2)
-  -- entries on `f`. `f.conwayPoly` / `f.polyRing` are used only through value-returning univariate methods
-  ("extfield.Field.Element", [(0, "*"), (0, "coefs"), (0, "degs"), (0, "isGroebner"), (0, "val"), (0, "vars")]),
-  ("extfield.Field.ElementFromSigned", [(0, "*"), (0, "coefs"), (0, "isGroebner"), (0, "val")]),
-  ("extfield.Field.ElementFromSignedSlice", [(0, "*"), (0, "coefs"), (0, "isGroebner"), (0, "val")]),
-  ("extfield.Field.ElementFromString", [(0, "*"), (0, "coefs"), (0, "degs"), (0, "isGroebner"), (0, "val"), (0, "vars")]),
-  ("extfield.Field.ElementFromUnsigned", [(0, "*"), (0, "coefs"), (0, "isGroebner"), (0, "val")]),
-  ("extfield.Field.ElementFromUnsignedSlice", [(0, "*"), (0, "coefs"), (0, "isGroebner"), (0, "val")]),
-  ("extfield.Field.Elements", [(0, "*"), (0, "coefs"), (0, "isGroebner"), (0, "val")]),
-  ("extfield.Field.MultGenerator", [(0, "*"), (0, "coefs"), (0, "isGroebner"), (0, "val")]),
-  ("extfield.Field.RandElement", [(0, "*"), (0, "coefs"), (0, "isGroebner"), (0, "val")]),
-  -- `a.field.element(0)` / `a.field.ElementFromSigned(i0)`: fresh results; (R2) `element` also resolves to
-  -- `extfield.Field.element` (⇒ polynomial constructors), (R3) books it on `a`
-  ("primefield.Element.Inv", [(0, "*"), (0, "coefs"), (0, "isGroebner"), (0, "val")]),
-  -- `out := a.field.element(1)`, `b := a.Copy()`, `out.Mult(b)`, `b.Mult(b)`: fresh objects; (R2)+(R3) as for `Inv`
-  ("primefield.Element.Pow", [(0, "*"), (0, "coefs"), (0, "isGroebner"), (0, "val")]),
-  -- primefield.Field constructors / enumeration / random: `&Element{field: f, val: …}`; (R2) `element`,
-  -- `ElementFromUnsigned`, `Pow` resolve to the extfield methods. A primefield.Field has fields char, addTable,
-  -- multTable only
-  ("primefield.Field.Element", [(0, "*"), (0, "coefs"), (0, "degs"), (0, "isGroebner"), (0, "val"), (0, "vars")]),
-  ("primefield.Field.ElementFromSigned", [(0, "*"), (0, "coefs"), (0, "isGroebner"), (0, "val")]),
-  ("primefield.Field.ElementFromString", [(0, "*"), (0, "coefs"), (0, "isGroebner"), (0, "val")]),
-  ("primefield.Field.ElementFromUnsigned", [(0, "*"), (0, "coefs"), (0, "isGroebner"), (0, "val")]),
-  ("primefield.Field.Elements", [(0, "*"), (0, "coefs"), (0, "isGroebner"), (0, "val")]),
-  ("primefield.Field.MultGenerator", [(0, "*"), (0, "coefs"), (0, "isGroebner"), (0, "val")]),
-  ("primefield.Field.RandElement", [(0, "*"), (0, "coefs"), (0, "isGroebner"), (0, "val")]),
-  -- as `bivariate.Polynomial.Pow`: `out := f.baseRing.Polynomial([1])`, `g := f.Copy()`, `out = out.Mult(g)`
-  ("univariate.Polynomial.Pow", [(0, "*"), (0, "coefs"), (0, "isGroebner"), (0, "val")]),
-  -- `out := r.zeroWithCap(n)` is a call result (fresh); the entries come from `r.baseField.ElementFromSigned(c)`
-  -- / `…Unsigned(c)` by (R2)+(R3) (resolves to the extfield constructors above)
-  ("univariate.QuotientRing.PolynomialFromSigned", [(0, "*"), (0, "coefs"), (0, "isGroebner"), (0, "val")]),
-  ("univariate.QuotientRing.PolynomialFromUnsigned", [(0, "*"), (0, "coefs"), (0, "isGroebner"), (0, "val")]),
-  -- (R1) `qr := &QuotientRing{ring: r.ring, id: nil}`; `qr.id = idConv` completes the FRESH ring
-  ("univariate.QuotientRing.Quotient", [(0, "id")])]
+  -- `out := f.baseRing.Polynomial(…)`, `g := f.Copy()`, `out.Mult(g)`: the products are reduced modulo the
+  -- ring's ideal; `IsGroebner()` may cache its answer in that ideal (guarded flag)
+  ("bivariate.Polynomial.Pow", [(0, "isGroebner")]),
+  -- `out := &Polynomial{baseRing: r, coefs: m}; out.reduce()`: the same flag, reached through the field
+  -- `baseRing` of the fresh polynomial, which was initialised from the receiver `r`
+  ("bivariate.QuotientRing.Polynomial", [(0, "isGroebner")]),
+  ("bivariate.QuotientRing.PolynomialFromSigned", [(0, "isGroebner")]),
+  ("bivariate.QuotientRing.PolynomialFromString", [(0, "isGroebner")]),
+  ("bivariate.QuotientRing.PolynomialFromUnsigned", [(0, "isGroebner")]),
+  -- `id = id.GroebnerBasis(); _ = id.ReduceBasis()` / `id = id.Copy()`; `g.EmbedIn(qr, false)` for the generators
+  -- of that FRESH ideal: booked on the parameter whose name was re-bound (extractor assumption A4)
+  ("bivariate.QuotientRing.Quotient", [(1, "*"), (1, "baseRing"), (1, "generators"), (1, "isGroebner"), (1, "isMinimal"), (1, "isReduced")])]
 
 /-- exact list of the non-`err` may-writes of value-returning operations -/
 theorem value_ops_nonerr_writes : nonErrWrites Gen.effects isValueOp = valueExceptionRows := by
@@ -240,7 +180,7 @@ theorem value_ops_nonerr_writes : nonErrWrites Gen.effects isValueOp = valueExce
 
 def valueExceptions : List String := valueExceptionRows.map (·.1)
 
-/-- **for every value-returning operation outside the 36 commented exceptions, every may-write entry is
+/-- **for every value-returning operation outside the 6 commented exceptions, every may-write entry is
     `(_, "err")`** — the error re-wrap inside `hasErr`, which only touches operands that already carry
     an error. -/
 theorem value_ops_write_only_err {f : Fn} (hf : f ∈ Gen.effects) (hv : isValueOp f = true)
@@ -260,23 +200,33 @@ theorem value_ops_write_only_err {f : Fn} (hf : f ∈ Gen.effects) (hv : isValue
 /-- For the operations C16 is about first of all — value-returning METHODS OF ELEMENTS AND POLYNOMIALS
     (`Plus`, `Minus`, `Times`, `Neg`, `Inv`, `Pow`, `Trace`, `Copy`, `Scale`, `Normalize`, `Eval`, `Coef`,
     `Lc`, `Lt`, `Ld`, `Coefs`, `Degrees`, `SortedDegrees`, `QuoRem`, `Rem`, `String`, `Equal`, `IsZero`, …) —
-    the exceptions are just these six (`Pow`/`Inv`/`Eval`: fresh accumulators `out`, `g := f.Copy()`,
-    `r0`, `i0`, `i1`; the entries come from R2/R3 via `a.field.element(…)`, `f.baseRing.Polynomial(…)`,
-    `point[i].Pow(…)`). -/
+    the only exception is `bivariate.Polynomial.Pow` (guarded flag, see above). -/
 theorem operand_value_ops_exceptions :
     ((Gen.effects.filter fun f => isValueOp f && (code f.recv == code "Element" || code f.recv == code "Polynomial")
-        && f.writes.any fun w => !isErr w).map (·.key)) =
-      ["bivariate.Polynomial.Eval", "bivariate.Polynomial.Pow", "extfield.Element.Inv",
-       "primefield.Element.Inv", "primefield.Element.Pow", "univariate.Polynomial.Pow"] := by
+        && f.writes.any fun w => !isErr w).map (·.key)) = ["bivariate.Polynomial.Pow"] := by
   decide +kernel
 
-/-- all non-`err` entries of the exception rows are fields of per-call objects (`*`, `coefs`, `val`:
-    the fresh polynomial / element under construction; `degs`, `vars`: parser scratch), the guarded flag
-    `isGroebner`, or belong to the three constructor rows `NewIdeal`, `Quotient` (×2) -/
+/-- **full strength, flag aside**: a value-returning operation other than `bivariate.QuotientRing.Quotient`
+    may-writes, through any parameter, nothing but `err` (of an operand that already carries an error) and the
+    guarded Gröbner flag `isGroebner` of the ring's ideal. -/
+theorem value_ops_write_only_err_or_flag {f : Fn} (hf : f ∈ Gen.effects) (hv : isValueOp f = true)
+    (hk : f.key ≠ "bivariate.QuotientRing.Quotient") {w : Nat × String} (hw : w ∈ f.writes) :
+    w.2 = "err" ∨ w.2 = "isGroebner" := by
+  have h : ((Gen.effects.filter fun f => isValueOp f && !(code f.key == code "bivariate.QuotientRing.Quotient")).all
+      fun f => f.writes.all fun w => isErr w || code w.2 == code "isGroebner") = true := by decide +kernel
+  have hk' : (code f.key == code "bivariate.QuotientRing.Quotient") = false := by
+    cases hc : (code f.key == code "bivariate.QuotientRing.Quotient") with
+    | false => rfl
+    | true => exact absurd (code_inj (beq_iff_eq.1 hc)) hk
+  have := (List.all_eq_true.1 ((List.all_eq_true.1 h) f (List.mem_filter.2 ⟨hf, by simp [hv, hk']⟩))) w hw
+  simp only [Bool.or_eq_true, beq_iff_eq, isErr_iff] at this
+  exact this.imp id code_inj
+
+/-- all non-`err` entries of the exception rows are the guarded flag `isGroebner`, except in the constructor
+    row `Quotient` -/
 theorem value_exception_fields :
     (valueExceptionRows.all fun r =>
-      memC r.1 ["bivariate.QuotientRing.NewIdeal", "bivariate.QuotientRing.Quotient", "univariate.QuotientRing.Quotient"] ||
-      r.2.all fun w => memC w.2 ["*", "coefs", "val", "degs", "vars", "isGroebner"]) = true := by
+      memC r.1 ["bivariate.QuotientRing.Quotient"] || r.2.all fun w => memC w.2 ["isGroebner"]) = true := by
   decide +kernel
 
 /-! ## the remaining documented mutators (for completeness: exact may-write sets) -/
@@ -290,12 +240,12 @@ def mutatorRows : List (String × List (Nat × String)) := [
   ("bivariate.Ideal.MinimizeBasis", [(0, "err"), (0, "generators"), (0, "isGroebner"), (0, "isMinimal"), (0, "isReduced")]),
   ("bivariate.Ideal.Reduce", [(0, "err"), (0, "isGroebner"), (1, "*"), (1, "err")]),
   ("bivariate.Ideal.ReduceBasis", [(0, "err"), (0, "generators"), (0, "isGroebner"), (0, "isMinimal"), (0, "isReduced")]),
-  ("bivariate.Polynomial.EmbedIn", [(0, "*"), (0, "baseRing"), (0, "coefs"), (0, "err"), (0, "isGroebner"), (0, "val")]),
+  ("bivariate.Polynomial.EmbedIn", [(0, "*"), (0, "baseRing"), (0, "err"), (0, "isGroebner")]),
   ("bivariate.QuotientRing.SetVarNames", [(0, "varNames")]),
-  ("extfield.Field.ComputeMultTable", [(0, "*"), (0, "coefs"), (0, "err"), (0, "isGroebner"), (0, "logTable"), (0, "val")]),
+  ("extfield.Field.ComputeMultTable", [(0, "logTable")]),
   ("primefield.Field.ComputeTables", [(0, "addTable"), (0, "multTable")]),
-  ("univariate.Ideal.Reduce", [(0, "err"), (1, "*"), (1, "coefs"), (1, "err"), (1, "isGroebner"), (1, "val")]),
-  ("univariate.Polynomial.EmbedIn", [(0, "*"), (0, "baseRing"), (0, "coefs"), (0, "err"), (0, "isGroebner"), (0, "val")]),
+  ("univariate.Ideal.Reduce", [(0, "err"), (1, "coefs"), (1, "err"), (1, "val")]),
+  ("univariate.Polynomial.EmbedIn", [(0, "baseRing"), (0, "coefs"), (0, "err"), (0, "val")]),
   ("univariate.QuotientRing.SetVarName", [(0, "varName")])]
 
 theorem mutator_may_writes : mayWrites Gen.effects isMutator = mutatorRows := by decide +kernel
